@@ -353,3 +353,16 @@ package wire
 //@   invariant samearray(b, old(b)) || isfresh(b)
 //@   invariant hasECN == (f.ECT0 > 0 || f.ECT1 > 0 || f.ECNCE > 0)
 //@   modifies old(b)[*]
+
+//@ spec ackcovers(f *AckFrame, p int64) bool = exists(k, 0, len(f.AckRanges), f.AckRanges[k].Smallest <= p && p <= f.AckRanges[k].Largest, trig(f.AckRanges, k))
+
+//@ func (f *AckFrame) AcksPacket
+//@   trusted binary search through sort.Search with a closure; contract stated from the documented behaviour, checked by the thorough-tier conformance test
+//@   requires f.rangesValid()
+//@   ensures [iff] iff(result, ackcovers(f, p))
+//@   modifies nothing
+
+//@ func (f *AckFrame) HasMissingRanges
+//@   props C07
+//@   ensures iff(result, len(f.AckRanges) > 1)
+//@   modifies nothing
